@@ -10,6 +10,7 @@ package cmd
 import (
 	"fmt"
 	"math"
+	"net/netip"
 	"regexp"
 	"sort"
 	"strconv"
@@ -30,6 +31,7 @@ const (
 	vc20KindBool      vc20Kind = "bool"
 	vc20KindEnum      vc20Kind = "enum"
 	vc20KindXRef      vc20Kind = "xref"
+	vc20KindAddr      vc20Kind = "addr"
 	vc20KindString    vc20Kind = "string"
 	vc20KindNode      vc20Kind = "node"
 )
@@ -295,6 +297,8 @@ func vc20Catalogue(root yaml.MapSlice) (fields []*vc20Field) {
 				f.kind = vc20KindSize
 			case key == "type" || key == "protocol":
 				f.kind = vc20KindEnum
+			case vc20AddrForm(n) != "":
+				f.kind = vc20KindAddr
 			case occ[n] > 1 && !strings.ContainsAny(n, "/:") && n != "":
 				f.kind = vc20KindXRef
 			default:
@@ -312,6 +316,63 @@ func vc20Catalogue(root yaml.MapSlice) (fields []*vc20Field) {
 	walk(root, nil, "", "")
 
 	return fields
+}
+
+// vc20AddrForm tells whether s is an IP address ("addr"), an address with a
+// port ("addrport") or a prefix ("prefix"), possibly behind a scheme, and
+// returns "" otherwise.
+func vc20AddrForm(s string) (form string) {
+	if _, rest, ok := strings.Cut(s, "://"); ok {
+		s = rest
+	}
+
+	if _, err := netip.ParseAddr(s); err == nil {
+		return "addr"
+	} else if _, err = netip.ParseAddrPort(s); err == nil {
+		return "addrport"
+	} else if _, err = netip.ParsePrefix(s); err == nil {
+		return "prefix"
+	}
+
+	return ""
+}
+
+// vc20AddrValues returns the odd addresses tried in place of orig.
+func vc20AddrValues(orig string) (vals []vc20Value) {
+	scheme := ""
+	rest := orig
+	if sch, r, ok := strings.Cut(orig, "://"); ok {
+		scheme, rest = sch+"://", r
+	}
+
+	is6 := strings.Contains(rest, ":") && strings.Count(rest, ":") > 1
+	var other, same, mapped, unspec string
+	switch vc20AddrForm(orig) {
+	case "addr":
+		other, same, mapped, unspec = "2001:db8::c20", "192.0.2.20", "::ffff:192.0.2.20", "0.0.0.0"
+		if is6 {
+			other, same, unspec = same, other, "::"
+		}
+	case "addrport":
+		other, same, mapped, unspec = "[2001:db8::c20]:5353", "192.0.2.20:5353", "[::ffff:192.0.2.20]:5353", "0.0.0.0:0"
+		if is6 {
+			other, same, unspec = same, other, "[::]:0"
+		}
+	case "prefix":
+		other, same, mapped, unspec = "2001:db8:c20::/48", "192.0.2.0/25", "::ffff:192.0.2.0/120", "0.0.0.0/0"
+		if is6 {
+			other, same, unspec = same, other, "::/0"
+		}
+	}
+
+	return []vc20Value{
+		{class: "wrong-family", v: scheme + other},
+		{class: "other-address", v: scheme + same},
+		{class: "ipv4-mapped", v: scheme + mapped},
+		{class: "unspecified-address", v: scheme + unspec},
+		{class: "unparsable", v: scheme + "c20-not-an-address"},
+		{class: "empty", v: scheme},
+	}
 }
 
 // vc20EnumPool returns, for enum fields, the values seen under the same key
@@ -487,6 +548,12 @@ func vc20Values(f *vc20Field, enums map[string][]string, xrefs []string) (vals [
 		for _, x := range xrefs {
 			add("other-ref", x)
 		}
+	case vc20KindAddr:
+		for _, v := range vc20AddrValues(f.orig.(string)) {
+			add(v.class, v.v)
+		}
+
+		add("empty", "")
 	case vc20KindString:
 		add("empty", "")
 	case vc20KindNode:
@@ -512,6 +579,30 @@ func vc20Values(f *vc20Field, enums map[string][]string, xrefs []string) (vals [
 	// consumer.
 	vals = append(vals, vc20Value{class: "null", v: nil})
 	vals = append(vals, vc20Value{class: "missing", v: vc20Missing{}})
+
+	// An empty or null element of a list is a different thing to a consumer
+	// than an empty or null property: the list still has an entry, with the
+	// zero value of its type.
+	if _, isElem := f.path[len(f.path)-1].(int); isElem {
+		seen := map[string]struct{}{}
+		out := vals[:0]
+		for _, v := range vals {
+			switch v.class {
+			case "empty", "null":
+				v.class += "-list-element"
+			}
+
+			k := v.class + "/" + vc20ValueString(v.v)
+			if _, dup := seen[k]; dup {
+				continue
+			}
+
+			seen[k] = struct{}{}
+			out = append(out, v)
+		}
+
+		vals = out
+	}
 
 	return vals
 }
